@@ -3,7 +3,7 @@ from __future__ import annotations
 
 import ast
 
-from ..astq import Inliner, U, kwarg, statements, store_targets
+from ..astq import Canon, Inliner, U, kwarg, statements, store_targets, unify
 from ..cfg import CFG, header_walk
 from ..index import AnalysisError, walk_no_nested
 from ..selftest import V
@@ -24,50 +24,54 @@ SC = "leaspy.algo.personalize.scipy_minimize"
 MC = "leaspy.algo.personalize.mcmc"
 
 
+def _find_line_node(fn, cn, line_text, shared_inline=False):
+    return fn.node
+
+
 def r1_order(ctx):
     ctx.rule("C17.R1", "results keyed by the input identifiers in input order", 4)
     ix = ctx.ix
     f = ix.func(SC, "ScipyMinimizeAlgorithm._compute_individual_parameters", "C17.R1")
-    inl = Inliner(f.node)
-    # states filled in dataset.indices order
-    loops = [l for l in ast.walk(f.node) if isinstance(l, ast.For) and any(isinstance(s, ast.Assign) and U(s.targets[0]).startswith("states[") for s in l.body)]
-    ok = len(loops) == 1 and U(loops[0].iter) == "dataset.indices" and any(U(s.targets[0]) == f"states[{U(loops[0].target)}]" for s in loops[0].body if isinstance(s, ast.Assign))
-    ctx.check(ok, "C17.R1", f, loops[0] if loops else f.node, "per-subject states created by iterating dataset.indices",
-              "per-subject states are not created in the order of dataset.indices")
-    empty = [s for s in statements(f.node) if isinstance(s, ast.Assign) and U(s.targets[0]) == "states" and isinstance(s.value, (ast.Dict,)) and not s.value.keys]
-    ctx.check(bool(empty), "C17.R1", f, empty[0] if empty else f.node, "states is an (insertion-ordered) dict", "`states` is not a plain dict: insertion order is not the iteration order", construct="states = {}")
-    # the Parallel generator iterates states.items()
+    cn = Canon(f.node)
+    L = cn.lines(False, True)
     par = [c for c in ast.walk(f.node) if isinstance(c, ast.Call) and isinstance(c.func, ast.Call) and U(c.func.func) == "Parallel"]
     if not par:
         raise AnalysisError("C17.R1", "anchor vanished: joblib Parallel call in scipy_minimize")
+    # states filled in dataset.indices order, in a plain (insertion-ordered) dict
+    b = unify(L, ["?states = {}", "for ($2.indices, ?id)", "?states[?id] = ..."])
+    ctx.check(b is not None, "C17.R1", f, f.node, "per-subject states created by iterating dataset.indices into a plain dict",
+              "per-subject states are not created in the order of dataset.indices (or not kept in an insertion-ordered dict)", construct="states filled in input order")
+    b = b or {}
+    # the Parallel generator iterates states.items(); each job gets the state of its subject
+    b2 = unify(L, ["?res = Parallel(...)((delayed(...)(?st, ...patient_id=?pid...) for ?k, (?pid, ?st) in enumerate(?states.items())))"], {k: v for k, v in b.items() if k == "states"})
     gen = [g for g in ast.walk(par[0]) if isinstance(g, ast.GeneratorExp)]
-    it = U(gen[0].generators[0].iter) if gen else ""
-    ctx.check(it == "enumerate(states.items())", "C17.R1", f, par[0], "jobs generated in the order of the states dictionary", f"jobs iterate `{it}`: not the insertion order of the per-subject states")
-    call = gen[0].elt if gen else None
-    okk = call is not None and U(call.args[0]) == "state_pat" and any(k.arg == "patient_id" and U(k.value) == "id_pat" for k in call.keywords)
-    ctx.check(okk, "C17.R1", f, call or f.node, "each job gets the state of its own subject", "a job does not receive the state / identifier of the subject it iterates", construct="job arguments")
-    res_var = None
-    for st in statements(f.node):
-        if isinstance(st, ast.Assign) and st.value is par[0]:
-            res_var = U(st.targets[0])
-    zips = [l for l in ast.walk(f.node) if isinstance(l, ast.For) and isinstance(l.iter, ast.Call) and U(l.iter.func) == "zip"]
-    ok = bool(zips) and [U(a) for a in zips[0].iter.args] == ["dataset.indices", res_var]
-    ctx.check(ok, "C17.R1", f, zips[0] if zips else f.node, "results zipped with dataset.indices", "results are not re-associated with dataset.indices in order")
-    if zips:
-        add = [c for c in ast.walk(zips[0]) if isinstance(c, ast.Call) and U(c.func).endswith(".add_individual_parameters")]
-        tgt = [U(x) for x in zips[0].target.elts] if isinstance(zips[0].target, ast.Tuple) else []
-        ok = bool(add) and len(tgt) == 2 and U(add[0].args[0]) in (f"str({tgt[0]})", tgt[0]) and U(add[0].args[1]) == tgt[1]
-        ctx.check(ok, "C17.R1", f, add[0] if add else zips[0], "each result stored under its own identifier", "a result is stored under another subject's identifier", construct="add_individual_parameters(id, result)")
+    it = U(gen[0].generators[0].iter) if gen else "?"
+    ctx.check(b2 is not None, "C17.R1", f, par[0], "jobs generated in the order of the states dictionary, each with the state and identifier of its own subject",
+              f"jobs iterate `{it}` / do not receive the state and identifier of the subject they iterate: not the insertion order of the per-subject states", construct="jobs in states order")
+    b2 = b2 or {}
+    b3 = unify(L, ["for (zip($2.indices, ?res), (?rid, ?r))"], {k: v for k, v in b2.items() if k == "res"})
+    ctx.check(b3 is not None, "C17.R1", f, par[0], "results zipped with dataset.indices", "results are not re-associated with dataset.indices in order", construct="results zipped with indices")
+    if b3 is not None:
+        b4 = unify(L, ["?ips.add_individual_parameters(str(?rid), ?r)", "return ?ips"], b3) or unify(L, ["?ips.add_individual_parameters(?rid, ?r)", "return ?ips"], b3)
+        ctx.check(b4 is not None, "C17.R1", f, f.node, "each result stored under its own identifier", "a result is stored under another subject's identifier", construct="add_individual_parameters(id, result)")
+    states_name = cn.real_name(b.get("states", "")) or "\0"
     for bad in ast.walk(f.node):
-        if isinstance(bad, ast.Call) and U(bad.func) in ("sorted", "set", "frozenset") and ("indices" in U(bad) or "states" in U(bad)):
+        if isinstance(bad, ast.Call) and U(bad.func) in ("sorted", "set", "frozenset", "reversed") and any(
+                (isinstance(n, ast.Attribute) and n.attr == "indices") or (isinstance(n, ast.Name) and n.id == states_name) for a in bad.args for n in ast.walk(a)):
             ctx.violation("C17.R1", f, bad, "identifiers are re-ordered (sorted / set) between input and output")
     g = ix.func(MC, "McmcPersonalizeAlgorithm._get_individual_parameters", "C17.R1")
+    gl = Canon(g.node).lines(False, True)
+    ok = unify(gl, ["return IndividualParameters.from_pytorch($2.indices, ?x)"]) is not None
     rets = [s for s in statements(g.node) if isinstance(s, ast.Return)]
-    ok = len(rets) == 1 and isinstance(rets[0].value, ast.Call) and U(rets[0].value.func) == "IndividualParameters.from_pytorch" and U(rets[0].value.args[0]) == "dataset.indices"
     ctx.check(ok, "C17.R1", g, rets[0] if rets else g.node, "from_pytorch(dataset.indices, ...)", "the sampling-based personalisation does not key its result by dataset.indices")
     init = ix.func(MC, "McmcPersonalizeAlgorithm._initialize_algo", "C17.R1")
-    ok = any(isinstance(c, ast.Call) and U(c.func).endswith("put_individual_latent_variables") and any(k.arg == "n_individuals" and U(k.value) == "dataset.n_individuals" for k in c.keywords) for c in ast.walk(init.node))
+    ci = Canon(init.node)
+    ok = any(isinstance(c, ast.Call) and U(c.func).endswith("put_individual_latent_variables") and any(k.arg == "n_individuals" and ci.text(k.value) == "$2.n_individuals" for k in c.keywords) for c in ast.walk(init.node))
     ctx.check(ok, "C17.R1", init, init.node, "one latent row per individual of the dataset", "latent variables are not initialised with one row per individual of the dataset", construct="n_individuals")
+
+
+HIST = ["?names = ...$1.dag.sorted_variables_by_type[IndividualLatentVariable]...", "for (?names, ?n)", "?vh[?n].append(?st[?n])",
+        "?a.append(?st.get_tensor_value('nll_attach_ind'))", "?r.append(?st.get_tensor_value('nll_regul_ind_sum_ind'))"]
 
 
 def r2_burn_in(ctx):
@@ -90,8 +94,8 @@ def r2_burn_in(ctx):
     ctx.check(len(guard_nodes) == 1, "C17.R2", g, g.node, "all histories appended under the same test (equal lengths)", "the histories are appended under different tests: their lengths can differ",
               construct="same guard for all histories")
     # what is appended
-    texts = " ".join(U(c) for _, c in apps)
-    ok = "state.get_tensor_value('nll_attach_ind')" in texts and "state.get_tensor_value('nll_regul_ind_sum_ind')" in texts and "values_history[individual_variable_name].append(state[individual_variable_name])" in texts
+    gl = Canon(g.node).lines(False, True)
+    ok = unify(gl, HIST) is not None
     ctx.check(ok, "C17.R2", g, g.node, "per-individual attachment, total individual regularity and every individual variable are recorded",
               "the recorded quantities are no longer (each individual variable, nll_attach_ind, nll_regul_ind_sum_ind)", construct="recorded quantities")
     # the sampling step precedes the recording in each iteration
@@ -111,22 +115,29 @@ def r3_axes(ctx):
     if len(stacks) < 3:
         ctx.violation("C17.R3", g, g.node, "the three histories are not all stacked", construct="stacks")
     call = [c for c in ast.walk(g.node) if isinstance(c, ast.Call) and U(c.func) == "self._compute_individual_parameters_from_samples_torch"]
-    ok = bool(call) and [U(a) for a in call[0].args] == ["torch_values", "torch_attachments", "torch_tot_regularities"]
+    gl = Canon(g.node).lines(False, True)
+    b = unify(gl, HIST[2:])
+    CALL = "$0._compute_individual_parameters_from_samples_torch"
+    ok = False
+    if b is not None:
+        hb = {k: b[k] for k in ("vh", "a", "r")}
+        ok = unify(gl, ["?tv = {?k: torch.stack(?h...) for ?k, ?h in ?vh.items()}", "?ta = torch.stack(?a...)", "?tr = torch.stack(?r...)", "..." + CALL + "(?tv, ?ta, ?tr)..."], hb) is not None \
+            or unify(gl, ["..." + CALL + "({?k: torch.stack(?h...) for ?k, ?h in ?vh.items()}, torch.stack(?a...), torch.stack(?r...))..."], hb) is not None
     ctx.check(ok, "C17.R3", g, call[0] if call else g.node, "(values, attachments, regularities) handed over in this order", "attachment and regularity histories are swapped / not handed to the estimator")
     m = ix.func("leaspy.algo.personalize.mean_posterior", "MeanPosteriorAlgorithm._compute_individual_parameters_from_samples_torch", "C17.R3")
     rets = [s for s in statements(m.node) if isinstance(s, ast.Return)]
-    ok = len(rets) == 1 and isinstance(rets[0].value, ast.DictComp) and U(rets[0].value.value) in ("value_var.mean(dim=0)", "torch.mean(value_var, dim=0)") and U(rets[0].value.generators[0].iter) == "values.items()" \
-        and U(rets[0].value.key) == U(rets[0].value.generators[0].target.elts[0])
+    ml = Canon(m.node).lines(True, True)
+    ok = len(rets) == 1 and (unify(ml, ["return {?k: ?v.mean(dim=0) for ?k, ?v in $1.items()}"]) or unify(ml, ["return {?k: torch.mean(?v, dim=0) for ?k, ?v in $1.items()}"])) is not None
     ctx.check(ok, "C17.R3", m, rets[0] if rets else m.node, "mean over the draw axis (dim=0) of every variable", "the posterior mean is not the mean over the draw axis of each kept variable")
     mo = ix.func("leaspy.algo.personalize.mode_posterior", "ModePosteriorAlgorithm._compute_individual_parameters_from_samples_torch", "C17.R3")
-    inl = Inliner(mo.node)
     am = [c for c in ast.walk(mo.node) if isinstance(c, ast.Call) and U(c.func) == "torch.argmin"]
-    ok = len(am) == 1 and U(am[0].args[0]) in ("attachments + self.regularity_factor * regularities", "self.regularity_factor * regularities + attachments") and U(kwarg(am[0], "dim")) == "0"
+    cmo = Canon(mo.node)
+    ok = len(am) == 1 and cmo.text(am[0].args[0]) in ("$2 + $0.regularity_factor * $3", "$0.regularity_factor * $3 + $2") and U(kwarg(am[0], "dim")) == "0"
     ctx.check(ok, "C17.R3", mo, am[0] if am else mo.node, "best draw = argmin over draws of attachment + factor * regularity",
               f"the best draw is `{U(am[0]) if am else '?'}`: not the argmin over the draw axis of attachment + regularity_factor * regularity")
     rets = [s for s in statements(mo.node) if isinstance(s, ast.Return)]
-    ok = len(rets) == 1 and isinstance(rets[0].value, ast.DictComp) and U(rets[0].value.value) == "value_var[indices_iter_best, indices_individuals]" \
-        and inl.text(ast.parse("indices_individuals").body[0].value) in ("torch.arange(len(torch.argmin(attachments + self.regularity_factor * regularities, dim=0)))", "torch.arange(len(indices_iter_best))")
+    BEST = cmo.text(am[0]) if am else "?"
+    ok = len(rets) == 1 and cmo.text(rets[0].value) == "{%0: %1[" + BEST + ", torch.arange(len(" + BEST + "))] for %0, %1 in $1.items()}"
     ctx.check(ok, "C17.R3", mo, rets[0] if rets else mo.node, "gathered as value[best draw of i, i] for every individual i", "the best draw is not gathered per individual (value[best_i, i])")
 
 
@@ -136,11 +147,10 @@ def r4_objective(ctx):
 
     ctx.rule("C17.R4", "scipy objective and scaling wiring", 5)
     ix = ctx.ix
-    from ..astq import Canon
     o = ix.func(SC, "ScipyMinimizeAlgorithm.obj_no_jac", "C17.R4")
     co = Canon(o.node)
     loops = [l for l in ast.walk(o.node) if isinstance(l, ast.For)]
-    wrote = bool(loops) and co.text(loops[0].iter) == "$3.unscaling($1).items()" and any(isinstance(b_, ast.Assign) and co.text(b_.targets[0]) == f"$2[{U(loops[0].target.elts[0])}]" and U(b_.value) == U(loops[0].target.elts[1]) for b_ in loops[0].body)
+    wrote = unify(co.lines(True, True), ["for ($3.unscaling($1).items(), (?k, ?v))", "$2[?k] = ?v"]) is not None
     ctx.check(wrote, "C17.R4", o, loops[0] if loops else o.node, "the candidate point is unscaled and written into the per-subject state", "the objective no longer evaluates the state at the (unscaled) candidate point",
               construct="objective writes the point")
     rets = co.returns()
@@ -150,35 +160,36 @@ def r4_objective(ctx):
     p = ix.func(SC, "ScipyMinimizeAlgorithm._get_individual_parameters_patient", "C17.R4")
     cp = Canon(p.node)
     prets = cp.returns()
-    MIN = "minimize($0.obj_with_jac if $k1 else $0.obj_no_jac, jac=$k1, x0=$k0.scaling({n: $1.get_tensor_value(n)[0] for n in $1.dag.individual_variable_names}), args=($1, $k0), **$0.scipy_minimize_params)"
+    MIN = "minimize($0.obj_with_jac if $k1 else $0.obj_no_jac, jac=$k1, x0=$k0.scaling({%0: $1.get_tensor_value(%0)[0] for %0 in $1.dag.individual_variable_names}), args=($1, $k0), **$0.scipy_minimize_params)"
     txt = prets[0] if prets else ""
     ctx.form("C17.R4", p, p.node, txt, {f"($k0.unscaling({MIN}.x), $0.obj_no_jac({MIN}.x, $1, $k0))"}, ["$k0.unscaling(", "x0=$k0.scaling(", "args=($1, $k0)"],
              "start = scaled current individual values of this state; result = unscaled optimiser output for the same state and scaling",
              "the optimisation is not started from / evaluated on / mapped back with this subject's state and scaling", construct="start and returned point")
     # scaling / unscaling inverse affine maps
-    cls = ix.find_class("_AffineScalings1D")
     un = ix.func(SC, "_AffineScalings1D.unscaling", "C17.R4")
     sc = ix.func(SC, "_AffineScalings1D.scaling", "C17.R4")
     x, loc, scale = sp.symbols("x loc scale", real=True)
 
     def elt(fn):
         for c in ast.walk(fn.node):
-            if isinstance(c, ast.ListComp) and "scaling." in U(c.elt):
-                return c.elt
-        return None
-    eu, es = elt(un), elt(sc)
+            if isinstance(c, ast.ListComp) and len(c.generators) == 1 and U(c.generators[0].iter) == "self.scalings.items()" and isinstance(c.generators[0].target, ast.Tuple):
+                return c.elt, U(c.generators[0].target.elts[1])
+        return None, None
+    (eu, su), (es, ss) = elt(un), elt(sc)
     try:
-        class Nz(Normalizer):
-            def tosym(self, e):
-                t = U(e)
-                if t == "scaling.loc":
-                    return loc
-                if t == "scaling.scale":
-                    return scale
-                if isinstance(e, ast.Subscript) and U(e.value) in ("x", "x_stacked"):
-                    return x
-                return super().tosym(e)
-        fu, fs = Nz({})(eu), Nz({})(es)
+        def nz(sname):
+            class Nz(Normalizer):
+                def tosym(self, e):
+                    t = U(e)
+                    if t == f"{sname}.loc":
+                        return loc
+                    if t == f"{sname}.scale":
+                        return scale
+                    if isinstance(e, ast.Subscript) and "self.slices[" in U(e.slice):
+                        return x
+                    return super().tosym(e)
+            return Nz({})
+        fu, fs = nz(su)(eu), nz(ss)(es)
         inverse = equal(fu.subs(x, fs), x) and equal(fu, loc + scale * x)
     except (NFUnsupported, AttributeError, TypeError) as e:
         inverse = None
@@ -187,9 +198,10 @@ def r4_objective(ctx):
     else:
         ctx.check(inverse, "C17.R4", un, eu, "unscaling(x) = loc + scale*x and unscaling(scaling(v)) = v", "scaling and unscaling are not inverse affine maps: the optimiser's start / result are mis-mapped")
     fs_ = ix.func(SC, "_AffineScalings1D.from_state", "C17.R4")
-    ok = "_AffineScaling.from_latent_variable(var, state)" in U(fs_.node) and "state.dag.sorted_variables_by_type[var_type].items()" in U(fs_.node)
+    ok = unify(Canon(fs_.node).lines(True, True), ["return $0({?k: _AffineScaling.from_latent_variable(?v, $1) for ?k, ?v in $1.dag.sorted_variables_by_type[$2].items()})"]) is not None
     fl = ix.func(SC, "_AffineScaling.from_latent_variable", "C17.R4")
-    ok = ok and "var.prior.mode.call(state)" in U(fl.node) and "var.prior.stddev.call(state)" in U(fl.node)
+    ll = Canon(fl.node).lines(False, True)
+    ok = ok and unify(ll, ["?m = $1.prior.mode.call($2)", "?s = $1.prior.stddev.call($2)", "return $0(?m, ?s)"]) is not None
     ctx.check(ok, "C17.R4", fl, fl.node, "coordinates standardised by the prior mode and standard deviation of each individual variable", "scalings are not the prior mode / standard deviation of each individual variable", construct="prior-standardised coordinates")
 
 
